@@ -1744,6 +1744,9 @@ class Evaluator:
                 x = args[0]
                 if isinstance(x, SymObj):
                     return SymObj(f'{name}({x.path})')
+            if name == 'object' and not args and not kwargs:
+                # a sentinel: an object with identity only (kept per module constant by the constant cache)
+                return Const(f'<object #{next(_OID)}>')
             if name in ('tuple', 'list') and not args:
                 return Tup([]) if name == 'tuple' else self.new_list(st, [])
             if name in ('ValueError', 'TypeError', 'RuntimeError', 'AttributeError', 'ArithmeticError',
